@@ -99,6 +99,25 @@ type CParent struct {
 
 func (CParent) TableName() string { return "c_parents" }
 
+// ZParent keeps a zero time instead of NULL in the soft-delete column of live rows
+// (tag zeroValue): every filter is `deleted_at = '<zero>'`.
+type ZParent struct {
+	ID        int `gorm:"primaryKey"`
+	Ca        int
+	Cb        int
+	Cs        string
+	Cn        *int
+	Ct        *string
+	Cor       int
+	Band      string
+	Mark      int
+	DeletedAt gorm.DeletedAt `gorm:"zeroValue:1970-01-01 00:00:01;default:'1970-01-01 00:00:01'"`
+}
+
+func (ZParent) TableName() string { return "z_parents" }
+
+const zeroDeletedAt = "1970-01-01 00:00:01"
+
 // Grand is the third level of the nested join path Child -> Parent -> Grand.
 type Grand struct {
 	ID        int `gorm:"primaryKey"`
@@ -186,6 +205,7 @@ var (
 	specGrands   = cond.TableSpec{Name: "grands", Soft: true}
 	specPtr      = cond.TableSpec{Name: "p_parents", Soft: true}
 	specCol      = cond.TableSpec{Name: "c_parents", SoftCols: []string{"removed_on"}}
+	specZero     = cond.TableSpec{Name: "z_parents", Soft: true, SoftDefault: "'" + zeroDeletedAt + "'"}
 	specChildren = cond.TableSpec{Name: "children", Soft: true, Extra: []string{"parent_id"}}
 	specToys     = cond.TableSpec{Name: "toys", Soft: true, Extra: []string{"child_id"}}
 	specTags     = cond.TableSpec{Name: "tags", Soft: true}
@@ -308,8 +328,11 @@ func (c tcase) primary() string {
 		return "children"
 	}
 	if c.PtrModel {
-		if c.Flavour == "column" {
+		switch c.Flavour {
+		case "column":
 			return "c_parents"
+		case "zerovalue":
+			return "z_parents"
 		}
 		return "p_parents"
 	}
@@ -320,7 +343,7 @@ func (c tcase) String() string {
 	var b strings.Builder
 	fmt.Fprintf(&b, "parents=%s", c.Parents)
 	switch c.Path {
-	case "joins", "preload", "assoc", "delete-assoc":
+	case "joins", "preload", "assoc", "delete-assoc", "assoc-unscoped":
 		fmt.Fprintf(&b, " children=%s", c.Children)
 	}
 	if c.nested() {
@@ -383,7 +406,7 @@ func (c tcase) String() string {
 
 // ---- generation ---------------------------------------------------------------------------------
 
-var paths = []string{"find", "find", "first", "count", "count-then", "count-then", "firstorinit", "firstorcreate", "delete-assoc", "pluck", "batches", "rows", "scan", "joins", "joins", "joins", "preload", "preload", "assoc", "assoc", "update", "update", "update", "delete", "delete", "delete"}
+var paths = []string{"find", "find", "first", "count", "count-then", "count-then", "firstorinit", "firstorcreate", "delete-assoc", "assoc-unscoped", "pluck", "batches", "rows", "scan", "joins", "joins", "joins", "preload", "preload", "assoc", "assoc", "update", "update", "update", "delete", "delete", "delete"}
 
 func skipClass(cl string) bool { return harness.OpenClass("C08", cl) }
 
@@ -458,12 +481,14 @@ func genCase(rt *rapid.T) tcase {
 	switch c.Path {
 	case "joins", "preload", "assoc":
 		c.Children = genTable(x, rt, x.N(7), pids)
+	case "assoc-unscoped":
+		c.Children = genTable(x, rt, 1+x.N(6), pids)
 	}
 	switch c.Path {
 	case "count", "pluck", "scan", "update", "delete":
 		if x.Pct(35) {
 			c.PtrModel = true
-			c.Flavour = []string{"pointer", "embedded", "column"}[x.N(3)]
+			c.Flavour = []string{"pointer", "embedded", "column", "zerovalue"}[x.N(4)]
 		}
 	}
 	// conditions may name the soft-delete column itself (typed IS NULL via nil, IS NOT NULL)
@@ -476,7 +501,8 @@ func genCase(rt *rapid.T) tcase {
 	}
 	// (not for the many2many association: its join table has a deleted_at of its own,
 	// an unqualified name would be ambiguous)
-	softCol := !strings.HasPrefix(c.Variant, "Tags/")
+	// (nor for the zeroValue model, whose live rows do not hold NULL)
+	softCol := !strings.HasPrefix(c.Variant, "Tags/") && c.Flavour != "zerovalue"
 	cfg := cond.Cfg{NoPK: true, LeadingOr: true, SoftCol: softCol, SkipClass: skipClass, OnExcluded: func(cl string) { evid.Excluded(cl) }}
 	switch c.Path {
 	case "joins":
@@ -548,6 +574,18 @@ func genCase(rt *rapid.T) tcase {
 			}
 		}
 		c.Calls = kept
+	case "assoc-unscoped":
+		// Association(rel).Unscoped().Clear() / Delete(): the unlinked records are deleted -
+		// softly unless the DB handle itself is Unscoped
+		c.Calls = nil
+		c.Variant = []string{"Parent/Clear", "Parent/Delete", "Children/Clear"}[x.N(3)]
+		if c.Variant == "Children/Clear" {
+			all := ids(c.Parents)
+			c.PK = all[x.N(len(all))]
+		} else {
+			c.PK = c.Children[x.N(len(c.Children)/2)].ID // a live child is the owner
+		}
+		c.Cfg, c.PtrModel, c.Flavour = "", false, ""
 	case "delete-assoc":
 		// Select("Children").Delete(&Parent{ID}): no further conditions
 		c.Calls = nil
@@ -717,6 +755,7 @@ type world struct {
 	prim     table
 	primSpec cond.TableSpec
 	tx       *gorm.DB // open transaction of the Cfg "tx" variant
+	liveMark string   // quote(deleted_at) of a live row: NULL, or the zero time of a zeroValue model
 }
 
 func (w *world) primModel() interface{} {
@@ -735,6 +774,8 @@ func (w *world) model(pk int) interface{} {
 		return &EParent{ID: pk}
 	case "column":
 		return &CParent{ID: pk}
+	case "zerovalue":
+		return &ZParent{ID: pk}
 	}
 	return &Parent{ID: pk}
 }
@@ -747,6 +788,8 @@ func (w *world) markedValue() interface{} {
 		return EParent{Mark: 7}
 	case "column":
 		return CParent{Mark: 7}
+	case "zerovalue":
+		return ZParent{Mark: 7}
 	}
 	return Parent{Mark: 7}
 }
@@ -755,13 +798,13 @@ func setup(c *tcase) (*world, error) {
 	k := &clock{}
 	d := testdb.Open(testdb.Options{NoReturning: c.Cfg == "NoReturning", Config: gorm.Config{NowFunc: k.now,
 		PrepareStmt: c.Cfg == "PrepareStmt", QueryFields: c.Cfg == "QueryFields"}})
-	w := &world{d: d, c: c}
+	w := &world{d: d, c: c, liveMark: "NULL"}
 	fail := func(what string, err error) (*world, error) {
 		d.Close()
 		return nil, fmt.Errorf("%s: %w", what, err)
 	}
 	joins := c.Path == "joins"
-	for _, s := range []cond.TableSpec{specParents, specChildren, specToys, specTags, specGrands, specPtr, specCol} {
+	for _, s := range []cond.TableSpec{specParents, specChildren, specToys, specTags, specGrands, specPtr, specCol, specZero} {
 		if err := s.Create(d.SQL); err != nil {
 			return fail("create", err)
 		}
@@ -816,10 +859,18 @@ func setup(c *tcase) (*world, error) {
 	w.env = cond.Env{Base: d.DB}
 	if c.PtrModel {
 		w.primSpec = specPtr
-		if c.Flavour == "column" {
+		rows := noExtra(toInsert(c.Parents, false))
+		switch c.Flavour {
+		case "column":
 			w.primSpec = specCol
+		case "zerovalue":
+			w.primSpec = specZero
+			w.liveMark = "'" + zeroDeletedAt + "'"
+			for i := range rows {
+				rows[i].DeletedAt = zeroDeletedAt
+			}
 		}
-		if err := w.primSpec.Insert(d.SQL, noExtra(toInsert(c.Parents, false))); err != nil {
+		if err := w.primSpec.Insert(d.SQL, rows); err != nil {
 			return fail("insert "+w.primSpec.Name, err)
 		}
 		w.env.MakeStruct = cond.StructMaker(reflect.TypeOf(w.model(0)).Elem())
@@ -899,7 +950,7 @@ func (w *world) history() (string, error) {
 			found := false
 			for _, a := range after {
 				if a.ID == r.ID {
-					found = a.DeletedAt == "NULL" && a.Row.String() == r.String()
+					found = a.DeletedAt == w.liveMark && a.Row.String() == r.String()
 				}
 			}
 			if !found || len(after) != len(before)+1 {
@@ -973,10 +1024,10 @@ func (w *world) compare(before, after []cond.Stored, exp map[int]int) string {
 		n++
 		switch {
 		case changed && st == marked:
-			if b.DeletedAt != "NULL" {
+			if b.DeletedAt != w.liveMark {
 				return fmt.Sprintf("harness: row id %d expected live before", b.ID)
 			}
-			if a.DeletedAt == "NULL" {
+			if a.DeletedAt == w.liveMark {
 				return fmt.Sprintf("row id %d was not marked (deleted_at still NULL)", b.ID)
 			}
 			a.DeletedAt = b.DeletedAt
@@ -994,7 +1045,7 @@ func (w *world) compare(before, after []cond.Stored, exp map[int]int) string {
 		default:
 			if a.String() != b.String() {
 				what := "row"
-				if b.DeletedAt != "NULL" {
+				if b.DeletedAt != w.liveMark {
 					what = "soft-deleted row"
 				}
 				return fmt.Sprintf("%s id %d changed: %s, was %s", what, b.ID, a, b)
@@ -1451,6 +1502,8 @@ func (w *world) run() (string, error) {
 		return w.runAssoc()
 	case "delete-assoc":
 		return w.runDeleteAssoc()
+	case "assoc-unscoped":
+		return w.runAssocUnscoped()
 	case "update":
 		return w.runUpdate()
 	case "delete":
@@ -1827,6 +1880,71 @@ func (w *world) hookVerdict() string {
 	return w.nestedVerdict("the statement inside Tag.AfterFind", tagHook.ids)
 }
 
+// runAssocUnscoped: Association(rel).Unscoped() deletes what it unlinks; whether that
+// delete marks or removes follows the DB handle (db.Unscoped()), not the association flag.
+func (w *world) runAssocUnscoped() (string, error) {
+	c := w.c
+	db := w.root()
+	beforeP, err := specParents.Dump(w.d.SQL)
+	if err != nil {
+		return "", err
+	}
+	beforeC, err := specChildren.Dump(w.d.SQL)
+	if err != nil {
+		return "", err
+	}
+	to := marked
+	if c.Unscoped {
+		to = gone
+	}
+	affected := func(st int) bool { return st == live || (c.Unscoped && st == marked) }
+	expP, expC := map[int]int{}, map[int]int{}
+	var opErr error
+	what := "Association(" + strings.Replace(c.Variant, "/", ").Unscoped().", 1) + "()"
+	switch c.Variant {
+	case "Children/Clear":
+		owner := Parent{ID: c.PK}
+		opErr = w.chain(db.Model(&owner)).Association("Children").Unscoped().Clear()
+		for _, r := range c.Children {
+			if r.FK == c.PK && affected(r.State) {
+				expC[r.ID] = to
+			}
+		}
+	default:
+		cr := c.Children.find(c.PK)
+		owner := Child{ID: cr.ID, ParentID: cr.FK}
+		as := w.chain(db.Model(&owner)).Association("Parent").Unscoped()
+		if c.Variant == "Parent/Clear" {
+			opErr = as.Clear()
+		} else {
+			opErr = as.Delete(&Parent{ID: cr.FK})
+		}
+		if pr := w.prim.find(cr.FK); pr != nil && affected(pr.State) {
+			expP[cr.FK] = to
+		}
+	}
+	if opErr != nil {
+		return what + " failed: " + opErr.Error(), nil
+	}
+	afterP, err := specParents.Dump(w.d.SQL)
+	if err != nil {
+		return "", err
+	}
+	afterC, err := specChildren.Dump(w.d.SQL)
+	if err != nil {
+		return "", err
+	}
+	if msg := w.compare(beforeP, afterP, expP); msg != "" {
+		return what + ", parents: " + msg, nil
+	}
+	if c.Variant == "Children/Clear" {
+		if msg := w.compare(beforeC, afterC, expC); msg != "" {
+			return what + ", children: " + msg, nil
+		}
+	}
+	return "", nil
+}
+
 // noCondition: the chain carries no effective condition at all.
 func (c *tcase) noCondition() bool { return c.pred() == nil }
 
@@ -1867,7 +1985,7 @@ func (w *world) runUpdate() (string, error) {
 	// soft-deleted rows untouched without Unscoped, whatever the predicate reading
 	if !c.Unscoped {
 		for _, b := range before {
-			if b.DeletedAt != "NULL" {
+			if b.DeletedAt != w.liveMark {
 				for _, a := range after {
 					if a.ID == b.ID && a.String() != b.String() {
 						return fmt.Sprintf("%s without Unscoped changed soft-deleted row id %d: %s, was %s", c.Variant, b.ID, a, b), nil
@@ -1934,7 +2052,7 @@ func (w *world) runDelete() (string, error) {
 				return fmt.Sprintf("%s without Unscoped changed the physical row count from %d to %d", what, len(before), len(after)), nil
 			}
 			for _, b := range before {
-				if b.DeletedAt != "NULL" {
+				if b.DeletedAt != w.liveMark {
 					for _, a := range after {
 						if a.ID == b.ID && a.String() != b.String() {
 							return fmt.Sprintf("%s without Unscoped changed soft-deleted row id %d: %s, was %s", what, b.ID, a, b), nil
